@@ -14,7 +14,7 @@
     statements on the recorded total order, the kernel asked whether the descriptor is still monitored,
     descriptor recycling inside the cancel handler) are evaluated in the driver; every recorded execution is
     validated against the flag-word level and the life-cycle order of Cancel.tla (spec/CancelTrace.tla)."""
-import os, re, json, collections
+import os, re, json, collections, time
 from concurrent.futures import ThreadPoolExecutor
 from vlib import *
 
@@ -43,7 +43,17 @@ PROPERTY_INVARIANTS = "INVARIANTS TypeOK C16 HandlerExclusive CancelHandlerOnce 
 
 
 def _checked(name, *a, **kw):
-    r = tlc_must_pass(name, *a, **kw)
+    kw.setdefault("heap", "2500m")       # the models are small; many checks share this machine (OOM killer)
+    for attempt in (0, 1, 2):
+        r = tlc(*a, **kw)
+        if r.rc in (-9, 137) and attempt < 2:     # killed from outside (memory pressure): not a verdict, try again
+            time.sleep(20 * (attempt + 1))
+            continue
+        break
+    if r.timeout:
+        raise Broken("TLC timed out on %s" % name)
+    if r.rc not in (0, 12, 13, 11) and r.violated is None:
+        raise Broken("TLC failed on %s (rc=%s):\n%s" % (name, r.rc, r.out[-3000:]))
     if r.violated is None:
         m = re.search(r"Error: Temporal propert(?:y|ies) (.*?) (?:was|were) violated", r.out)
         if m or r.rc == 13:
